@@ -12,7 +12,7 @@ import hashlib, numpy as np
 from harness import impl
 
 PROP = 'C04'
-GENERATED = ['RngConsts']
+GENERATED = ['RngConsts', 'SeedFacts']
 DRIVER = 'Drivers/C04.lean'
 DRIVER_MODULES = ['StarsimModel.Model.Rng', 'StarsimModel.Model.Proto']
 RULE = ('(1) random API-call sequences (init/jump/jump_dt/rvs/reset/direct rng use; strict x auto; every family of ss.dist_list; '
@@ -126,6 +126,12 @@ def gen_sequence(rng, families):
             has_slots = True
         else:
             ops.append(('rvs', 4, False))
+    if rng.random() < 0.06 and auto:
+        # a long sampling history (many more calls than any test makes), then a jump and a draw: the jump must still
+        # land on PCG64(seed).jumped(ind) — a history that is truncated or compacted breaks the reset-then-jump anchor
+        ops.append(('burst', rng.choice([1500, 6000, 12000]), 2))
+        ti += 1200
+        ops.append(('jumpdt', ti, False)); ops.append(('rvs', 3, False))
     return dict(family=fam, strict=strict, auto=auto, slots=slots, ops=ops)
 
 
@@ -183,6 +189,15 @@ def run_impl_sequence(case, modulo):
                 exp_len = len(n) if op[0] == 'rvs_uids' else size
                 if np.size(out) != exp_len:
                     res = f'badlen({np.size(out)}!={exp_len})'
+            elif op[0] == 'burst':
+                _, nrep, size = op
+                for _r in range(nrep - 1):
+                    lines.append(f"rvs {size} 0"); obs.append(None)
+                    try: d.rvs(size)
+                    except Exception: pass
+                lines.append(f"rvs {size} 0")
+                pre = full_state(d)
+                d.rvs(size); start = pre
             elif op[0] == 'reset':
                 lines.append(f"reset {op[1]}")
                 d.reset(op[1])
@@ -275,6 +290,7 @@ def correspond(ctx):
                       data=dict(case=c, lines=lines, divergence=div))
             break
     ctx.notes['families_covered'] = fams
+    correspond_check_seeds(ctx)
     # (2) whole-run monitoring
     nsims = ctx.budget(6, 40)
     for k in range(nsims):
@@ -285,6 +301,39 @@ def correspond(ctx):
             ctx.broke('correspondence', 'C04.run', f'recording run raised {type(e).__name__}: {e}', data=cfg)
             continue
         check_run(ctx, cfg, rec, modulo)
+
+
+def correspond_check_seeds(ctx):
+    """ the real Dists.check_seeds on registries with chosen seeds (repeats at any distance) vs the model's checkSeeds """
+    import starsim as ss
+    rng = ctx.rng
+    lines = []; plan = []
+    for _ in range(ctx.budget(60, 400)):
+        n = rng.randint(1, 12)
+        seeds = [rng.randint(0, 30) for _ in range(n)] if rng.random() < 0.6 else rng.sample(range(1000), n)
+        if rng.random() < 0.3 and n >= 3:
+            i, j = sorted(rng.sample(range(n), 2)); seeds[j] = seeds[i]      # a repeat between non-neighbours
+        reg = ss.Dists()
+        dd = {}
+        for i, sd in enumerate(seeds):
+            d = ss.random(strict=False, name=f'd{i}'); d.seed = sd; dd[f'd{i}'] = d
+        reg.dists = dd
+        try:
+            reg.check_seeds(); got = 'ok'
+        except Exception as e:
+            got = err_kind(e)
+        lines.append('checkseeds ' + ','.join(map(str, seeds)))
+        plan.append((seeds, got))
+    out = ctx.drive(DRIVER, lines)
+    for (seeds, got), m in zip(plan, out):
+        ctx.case(('checkseeds', tuple(seeds)), len(set(seeds)) != len(seeds))
+        if got != m:
+            msg = f'Dists.check_seeds on seeds {seeds}: the code says {got}, the model says {m} (duplicate-free: {len(set(seeds)) == len(seeds)})'
+            ctx.broke('correspondence', 'C04.check_seeds', msg, data=dict(seeds=seeds))
+            if (got == 'ok') != (len(set(seeds)) == len(seeds)):
+                ctx.fail(dict(oracle='check-seeds'), msg, dict(kind='checkseeds', seeds=seeds))
+            return
+    ctx.count('check_seeds_cases', len(plan))
 
 
 # ---------------------------------------------------------------------------
@@ -454,6 +503,13 @@ def search(ctx):
         ctx.count('oracle_runs')
     for f in oracle_guards():
         ctx.fail(f['signature'], f['what'], dict(kind='guards'))
+    # a module that draws from one distribution more often than the per-step stride: the next step must be refused
+    # (DistSeedRepeatError) rather than silently overlap with the draws already made
+    for n_calls in ([1200] if not ctx.thorough else [999, 1000, 1200, 2500]):
+        f = oracle_heavy(n_calls)
+        ctx.count('oracle_heavy')
+        if f:
+            ctx.fail(f['signature'], f['what'], dict(kind='heavy', n_calls=n_calls))
     # loop-operation sequences on real Dist objects: draw-start states must be pairwise distinct
     facts = ctx.extracted.get('RngConsts', {}).get('facts') or {}
     modulo = facts.get('modulo', 10**9)
@@ -469,6 +525,7 @@ def is_loop_op(op):
     if op[0] == 'init': return False
     if op[0] == 'reset': return False
     if op[0] in ('rvs', 'rvs_uids'): return not op[2]
+    if op[0] == 'burst': return True
     if op[0] == 'jump': return not op[3]
     if op[0] == 'jumpdt': return not op[2]
     return True
@@ -532,6 +589,38 @@ def oracle_run(cfg):
     return fails
 
 
+def oracle_heavy(n_calls, npts=4):
+    """ an intervention calling one of its dists n_calls times per step (stride = 1000 per step) """
+    import starsim as ss
+    class Heavy(ss.Intervention):
+        def __init__(self, **kw):
+            super().__init__(**kw); self.d = ss.random()
+        def step(self):
+            for _ in range(n_calls): self.d.rvs(1)
+    D = ss.Dist; orig = D.rvs; seen = {}; dup = []
+    def w(self, n=1, reset=False):
+        pre = full_state(self)
+        out = orig(self, n, reset=reset)
+        if self._size and str(self.trace).endswith('heavy_d'):
+            if pre in seen and len(dup) < 3: dup.append((seen[pre], (self.module.ti if self.module else None)))
+            seen[pre] = (self.module.ti if self.module else None)
+        return out
+    D.rvs = w
+    try:
+        sim = ss.Sim(n_agents=20, dur=npts, dt=1.0, diseases=ss.SIS(beta=0.1), networks=ss.StaticNet(n_contacts=2),
+                     interventions=Heavy(name='heavy'), verbose=0)
+        try:
+            sim.run()
+        except ss.distributions.DistSeedRepeatError:
+            pass   # refused: fine
+    finally:
+        D.rvs = orig
+    if dup:
+        return dict(signature=dict(oracle='state-reuse', dist='interventions'),
+                    what=f'a distribution drawn from {n_calls} times per step (stride 1000): a draw in step {dup[0][1]} starts from the generator state already used in step {dup[0][0]} instead of the run being refused')
+    return None
+
+
 def oracle_guards():
     import starsim as ss
     fails = []
@@ -584,6 +673,17 @@ def replay(ctx, data):
         return bool(oracle_run(data['cfg']))
     if data.get('kind') == 'guards':
         return bool(oracle_guards())
+    if data.get('kind') == 'heavy':
+        return oracle_heavy(data['n_calls']) is not None
+    if data.get('kind') == 'checkseeds':
+        import starsim as ss
+        reg = ss.Dists(); dd = {}
+        for i, sd in enumerate(data['seeds']):
+            d = ss.random(strict=False, name=f'd{i}'); d.seed = sd; dd[f'd{i}'] = d
+        reg.dists = dd
+        try: reg.check_seeds(); got = True
+        except Exception: got = False
+        return got != (len(set(data['seeds'])) == len(data['seeds']))
     if data.get('kind') == 'opseq':
         return bool(oracle_sequence(data['case'], 10**9))
     return False
